@@ -183,7 +183,8 @@ def _pause_resume(env: Env, out: Outcome, n: int, corpus: list[dict] | None, n_j
 def run(env: Env) -> Outcome:
     out = Outcome()
     out.rule = ("serde: generated broker states, two round trips; pause: deterministic fan-out/collect workflows with retries (25% with retry delays), "
-                "snapshot_stop at a random quiet point, resume from JSON; non-trivial = the run was actually paused; distinct by (spec, schedule); "
+                "snapshot_stop at a random quiet point, resume from JSON; plus fan-out/join workflows whose join step collects events it derived from its input "
+                "(types it does not accept / a subclass / mixed; default or named buffer); non-trivial = the run was actually paused; distinct by (spec, schedule); "
                 "payload: raw current-format / V0 dicts (omitted fields, legacy requirements, unknown steps, waiting ids, version markers 1/0/2/none, ~5% malformed), "
                 "non-trivial = something pending, buffered or waiting was loaded; todict: generated states (40% with a backlog) through to_dict -> JSON -> from_dict -> rewind; "
                 "parked: sequential ask/reply workflows, snapshot at the first quiet point(s), non-trivial = snapshot while waiting with nothing in flight")
